@@ -72,6 +72,18 @@ class NameGen:
             return name
         raise RuntimeError('identifier space exhausted')
 
+    def first_letter_variant(self, space: str, base: str):
+        """`base` with the case of its first letter flipped (only for worlds that never compile the output: the
+        accessor names of such a pair collide)."""
+        used = self.used.setdefault(space, set())
+        if not base[0].isalpha():
+            return None
+        name = base[0].swapcase() + base[1:]
+        if name in CPP_KEYWORDS or name in RESERVED or ('!' + name) in used:
+            return None
+        used.add('!' + name)
+        return name
+
     def variant(self, space: str, base: str):
         """A name that differs from `base` only in the case of letters after the first one (ties under casefold /
         lower-case sort keys), or None when no such variant is free."""
@@ -326,6 +338,14 @@ def _gen_spec(rng: Rng, want_mc, min_ports, profile, mc_triggers=False) -> dict:
                     v = pnames.variant('port', other['name'])
                     if v:
                         p['name'] = v
+        if rng.chance(20):
+            cands = [p for p in ports if not (mc and p['name'] == mc.get('port'))]
+            if len(cands) >= 2:
+                a, b = rng.sample(cands, 2)
+                if a['dir'] == b['dir'] and not a['injected'] and not b['injected']:
+                    v = pnames.first_letter_variant('port', a['name'])
+                    if v and v not in [p['name'] for p in ports]:
+                        b['name'] = v
     ports = rng.shuffle(ports)
     comp = {'kind': rng.weighted([(3, 'component'), (2, 'system')]), 'ns': list(comp_ns),
             'name': comp_name, 'ports': ports}
